@@ -79,6 +79,13 @@ Plan genProbe(const std::string& prop, int tier, uint64_t batchSeed, uint64_t id
                 op.set("p1o", r.range(0, 60)).set("p1v", static_cast<int64_t>(r.below(256)));
             if (r.chance(1, 6))
                 op.set("rawbody", 1);
+            if (kind == wire::K_CMSTAT && r.chance(1, 3))
+            {
+                op.set("nonul", 1);  // content-dependent: nothing behind the last string is zero
+                op.erase("cut");
+                op.erase("ilen");
+                op.erase("ilen2");
+            }
             if (r.chance(1, 8))
                 op.set("mcut", r.range(0, 40));
             if (r.chance(1, 8))
@@ -109,6 +116,11 @@ Plan genProbe(const std::string& prop, int tier, uint64_t batchSeed, uint64_t id
                 if (r.chance(1, 2))
                     m.set("ilen", r.pick<int64_t>({0, 1, 7, 8, 9, 0x40, 0xFF, 0x7FFF, 0xFFFF, static_cast<int64_t>(r.below(400))}))
                         .set("iwhich", static_cast<int64_t>(r.below(kind == wire::K_CMSTAT ? 5 : 2)));
+                else if (kind == wire::K_CMSTAT && r.chance(1, 2))
+                    m.set("nonul", 1);
+                // payload-level flag bits together with inconsistent lengths (flags live in the first two bytes)
+                if (kind != wire::K_CMSTAT && kind != wire::K_IFSTAT && r.chance(1, 3))
+                    m.set("p1o", static_cast<int64_t>(r.below(2))).set("p1v", 1LL << r.below(8));
                 op.sub.push_back(std::move(m));
             }
             if (r.chance(1, 4))
@@ -208,6 +220,15 @@ Plan genTecmp(const std::string& prop, int tier, uint64_t batchSeed, uint64_t id
     const size_t n = 1 + r.below(tier ? 40 : 16);
     for (size_t k = 0; k < n; ++k)
     {
+        if (k > 0 && r.chance(1, 5))
+        {
+            // the previous frame again with exactly ONE payload byte changed (caches keyed on too few bytes)
+            Item prev = g.plan.items.back();
+            prev.set("t", g.clock += 2);
+            prev.set("p1o", r.chance(2, 3) ? static_cast<int64_t>(r.below(20)) : static_cast<int64_t>(r.below(200))).set("p1v", static_cast<int64_t>(r.below(256)));
+            g.plan.items.push_back(prev);
+            continue;
+        }
         addTecmpOp(g, 1, r.chance(1, 3));
         Item& op = g.plan.items.back();
         // arbitrary header fields
